@@ -78,7 +78,8 @@ func Decode(b []byte) (principal.Signer, error) {
 		return nil, fmt.Errorf("decoding public bytes: %s", err)
 	}
 
-	return rsasigner{bytes: b, privKey: priv, verifier: verif}, nil
+	// keep a private copy: the caller may reuse its buffer
+	return rsasigner{bytes: append([]byte{}, b...), privKey: priv, verifier: verif}, nil
 }
 
 type rsasigner struct {
